@@ -52,6 +52,8 @@ FAMILIES = {
     "walk_q": (gen_cfg("WALK", caps="{1, 100000}", L="200"), 1, 8, "num=1500 -depth 220 -seed 11"),
     "walk_t": (gen_cfg("WALK", caps="{0, 1, 2, 100000}", L="400"), 1, 12, "num=4000 -depth 420 -seed 12"),
     "reasons": (gen_cfg("SEQ", caps="{100000}", kinds='{"resp"}', maxlen=0, cfgs="{0, 2}", L='"REASONS"'), 2, 4),
+    "dict_q": (gen_cfg("SEQ", caps="{1, 100000}", kinds='{"req", "resp", "hdrs"}', phases='{"HLINE"}', cfgs="{0, 49, 94}", maxlen=20, L='"DICT"'), 4, 3),
+    "prefaces": (gen_cfg("SEQ", caps="{1, 100000}", kinds='{"req", "resp"}', maxlen=0, cfgs="{0, 1, 2}", L='"PREFACES"'), 1, 4),
     "versions": (gen_cfg("SEQ", caps="{100000}", kinds='{"req", "resp"}', maxlen=0, cfgs="{0, 1, 2}", L='"VERSIONS"'), 2, 4),
     # ---------------- thorough tier
     "byte_t": (gen_cfg("BYTE", caps="{0, 1, 2, 100000}", follow="{10, 13, 32, 58, 97}"), 8, 2),
